@@ -1036,58 +1036,7 @@ func (e *enumerator) walkFn(fn *ssa.Function, ev []string, depth int, k func(ev 
 				// a lookup in a literal dispatch table: one continuation per entry the
 				// key can equal, and the miss
 				if lm := e.w.literalMap(stripConv(e.resolve(t.X, st))); lm != nil {
-					kc := e.w.Canon(e.resolve(t.Index, st))
-					var cands []int
-					hitKnown := false
-					for j, ent := range lm.Entries {
-						eq, known := e.keyEquals(t.Index, ent.Key, kc, st)
-						if known && eq {
-							cands = []int{j}
-							hitKnown = true
-							break
-						}
-						if !known {
-							cands = append(cands, j)
-						}
-					}
-					if st.lookups == nil {
-						st.lookups = map[*ssa.Lookup]lookupBinding{}
-					}
-					if st.keyFact == nil {
-						st.keyFact = map[string]keyFact{}
-					}
-					oldB, hadB := st.lookups[t]
-					oldF, hadF := st.keyFact[kc]
-					restore := func() {
-						if hadB {
-							st.lookups[t] = oldB
-						} else {
-							delete(st.lookups, t)
-						}
-						if hadF {
-							st.keyFact[kc] = oldF
-						} else {
-							delete(st.keyFact, kc)
-						}
-					}
-					for _, j := range cands {
-						ent := lm.Entries[j]
-						st.lookups[t] = lookupBinding{Val: ent.Val, Key: ent.Key, Hit: true}
-						st.keyFact[kc] = keyFact{hit: true, key: keyString(ent.Key)}
-						walk(b, i+1, ev)
-					}
-					if !hitKnown {
-						all := map[string]bool{}
-						for _, ent := range lm.Entries {
-							all[keyString(ent.Key)] = true
-						}
-						if of, ok := st.keyFact[kc]; !(ok && hadF && of.hit && all[of.key]) {
-							st.lookups[t] = lookupBinding{}
-							st.keyFact[kc] = keyFact{none: all}
-							walk(b, i+1, ev)
-						}
-					}
-					restore()
+					e.w.forkLookup(t, lm, st, e.eval, e.resolve(t.Index, st), func() { walk(b, i+1, ev) })
 					return
 				}
 			case *ssa.Store:
@@ -1551,8 +1500,12 @@ func zeroConst(t types.Type) ssa.Value {
 
 // keyEquals: does the key expression equal the entry's constant on this path?
 func (e *enumerator) keyEquals(key ssa.Value, k ssa.Value, kc string, st *pathState) (bool, bool) {
+	return keyEqualsSt(e.resolve(key, st), key, k, kc, st, e.eval)
+}
+
+func keyEqualsSt(resolved, key ssa.Value, k ssa.Value, kc string, st *pathState, eval func(ssa.Value) (bool, bool)) (bool, bool) {
 	kk := k.(*ssa.Const)
-	if c, ok := stripConv(e.resolve(key, st)).(*ssa.Const); ok && c.Value != nil && kk.Value != nil {
+	if c, ok := stripConv(resolved).(*ssa.Const); ok && c.Value != nil && kk.Value != nil {
 		return constant.Compare(c.Value, token.EQL, kk.Value), true
 	}
 	if f, ok := st.keyFact[kc]; ok {
@@ -1564,7 +1517,62 @@ func (e *enumerator) keyEquals(key ssa.Value, k ssa.Value, kc string, st *pathSt
 		}
 	}
 	// what the rule's abstract input says about `key == k`
-	return e.eval(&ssa.BinOp{Op: token.EQL, X: key, Y: k})
+	return eval(&ssa.BinOp{Op: token.EQL, X: key, Y: k})
+}
+
+// forkLookup: the continuations of a lookup in a literal dispatch table — one per
+// entry the key can equal on this path, and the miss; cont runs with the binding
+// in place.
+func (w *World) forkLookup(t *ssa.Lookup, lm *litMap, st *pathState, eval func(ssa.Value) (bool, bool), resolved ssa.Value, cont func()) {
+	kc := w.Canon(resolved)
+	var cands []int
+	hitKnown := false
+	for j, ent := range lm.Entries {
+		eq, known := keyEqualsSt(resolved, t.Index, ent.Key, kc, st, eval)
+		if known && eq {
+			cands = []int{j}
+			hitKnown = true
+			break
+		}
+		if !known {
+			cands = append(cands, j)
+		}
+	}
+	if st.lookups == nil {
+		st.lookups = map[*ssa.Lookup]lookupBinding{}
+	}
+	if st.keyFact == nil {
+		st.keyFact = map[string]keyFact{}
+	}
+	oldB, hadB := st.lookups[t]
+	oldF, hadF := st.keyFact[kc]
+	for _, j := range cands {
+		ent := lm.Entries[j]
+		st.lookups[t] = lookupBinding{Val: ent.Val, Key: ent.Key, Hit: true}
+		st.keyFact[kc] = keyFact{hit: true, key: keyString(ent.Key)}
+		cont()
+	}
+	if !hitKnown {
+		all := map[string]bool{}
+		for _, ent := range lm.Entries {
+			all[keyString(ent.Key)] = true
+		}
+		if !(hadF && oldF.hit && all[oldF.key]) {
+			st.lookups[t] = lookupBinding{}
+			st.keyFact[kc] = keyFact{none: all}
+			cont()
+		}
+	}
+	if hadB {
+		st.lookups[t] = oldB
+	} else {
+		delete(st.lookups, t)
+	}
+	if hadF {
+		st.keyFact[kc] = oldF
+	} else {
+		delete(st.keyFact, kc)
+	}
 }
 
 // localArrayBase: the local aggregate (array alloc, make([]T, n)) an indexed
@@ -2125,12 +2133,23 @@ func (w *World) resolveValue(v ssa.Value, st *pathState, eval func(ssa.Value) (b
 // helperResult: the single value a static module callee returns at idx under eval.
 func (w *World) helperResult(call *ssa.Call, idx int, st *pathState, eval func(ssa.Value) (bool, bool), depth int) ssa.Value {
 	cal := call.Common().StaticCallee()
-	if cal == nil || !w.InModule(cal) || cal.Blocks == nil || depth > 2 || len(cal.Params) != len(call.Common().Args) {
+	callArgs := call.Common().Args
+	if cal == nil && !call.Common().IsInvoke() && depth <= 2 {
+		// a function value the path determines (an entry of a dispatch table)
+		fv := w.resolveValue(call.Common().Value, st, eval, 3)
+		if f, rcv := w.calleeOfValue(fv); f != nil {
+			cal = f
+			if rcv != nil {
+				callArgs = append([]ssa.Value{rcv}, callArgs...)
+			}
+		}
+	}
+	if cal == nil || !w.InModule(cal) || cal.Blocks == nil || depth > 2 || len(cal.Params) != len(callArgs) {
 		return nil
 	}
 	env := map[*ssa.Parameter]string{}
 	for j, p := range cal.Params {
-		env[p] = w.Canon(w.resolveValue(call.Common().Args[j], st, eval, depth+1))
+		env[p] = w.Canon(w.resolveValue(callArgs[j], st, eval, depth+1))
 	}
 	w.inlineEnv = append(w.inlineEnv, env)
 	vals, complete := w.returnedValues(cal, idx, eval, depth+1)
@@ -2142,7 +2161,7 @@ func (w *World) helperResult(call *ssa.Call, idx int, st *pathState, eval func(s
 	if pr, ok := vals[0].(*ssa.Parameter); ok {
 		for j, q := range cal.Params {
 			if q == pr {
-				return w.resolveValue(call.Common().Args[j], st, eval, depth+1)
+				return w.resolveValue(callArgs[j], st, eval, depth+1)
 			}
 		}
 	}
@@ -2224,27 +2243,41 @@ func (w *World) returnedValues(fn *ssa.Function, idx int, eval func(ssa.Value) (
 				}
 			}
 		}()
-		switch t := lastInstr(b).(type) {
-		case *ssa.Return:
-			if idx < len(t.Results) {
-				curRet = b
-				curOrig = retResult(t, idx) // as written (a merge of sibling results is tested as the merge)
-				add(w.resolveValue(retResult(t, idx), st, eval, depth))
+		var proc func(from int)
+		proc = func(from int) {
+			// lookups in literal dispatch tables fork the evaluation
+			for i := from; i < len(b.Instrs); i++ {
+				if lk, isL := b.Instrs[i].(*ssa.Lookup); isL {
+					if lm := w.literalMap(stripConv(w.resolveValue(lk.X, st, eval, depth))); lm != nil {
+						next := i + 1
+						w.forkLookup(lk, lm, st, eval, w.resolveValue(lk.Index, st, eval, depth), func() { proc(next) })
+						return
+					}
+				}
 			}
-		case *ssa.If:
-			v, ok := w.evalBool(t.Cond, st, eval, depth)
-			if !ok || v {
+			switch t := lastInstr(b).(type) {
+			case *ssa.Return:
+				if idx < len(t.Results) {
+					curRet = b
+					curOrig = retResult(t, idx) // as written (a merge of sibling results is tested as the merge)
+					add(w.resolveValue(retResult(t, idx), st, eval, depth))
+				}
+			case *ssa.If:
+				v, ok := w.evalBool(t.Cond, st, eval, depth)
+				if !ok || v {
+					walk(b.Succs[0], b)
+				}
+				if !ok || !v {
+					walk(b.Succs[1], b)
+				}
+			case *ssa.Jump:
 				walk(b.Succs[0], b)
+			case *ssa.Panic:
+			default:
+				complete = false
 			}
-			if !ok || !v {
-				walk(b.Succs[1], b)
-			}
-		case *ssa.Jump:
-			walk(b.Succs[0], b)
-		case *ssa.Panic:
-		default:
-			complete = false
 		}
+		proc(0)
 	}
 	walk(fn.Blocks[0], nil)
 	return out, complete
